@@ -17,7 +17,7 @@ Definition ex_ops : list op :=
 
 Definition ex_bl : list block := Eval vm_compute in match parse_file ex_img with Some b => b | None => [] end.
 Definition ex_fr : frec := Eval vm_compute in
-  match load ex_img true with Some f => f | None => mkfrec [] 0 true false false end.
+  match load ex_img true with Some f => f | None => mkfrec [] 0 true false false 0 end.
 Definition ex_run : frec * wlog := Eval vm_compute in run_ops ex_fr ex_ops.
 Definition ex_fr1 : frec := fst ex_run.
 Definition ex_pre : wlog := snd ex_run.
